@@ -283,6 +283,13 @@ pub async fn run_schedule_with(t: &RaceTemplate, script: &[u8], policy: Option<&
                         sig,
                         format!("schedule {:?}: event {} was on the server's {name} log after an earlier request but request {req} of device {d} removed it", out.granted, hex::encode(&missing[..4])),
                     );
+                    // a patch request that the server REFUSED must not change its logs at all
+                    if req == "patch" && *w.tap.last_patch.lock().unwrap() == Some(false) {
+                        return Err(Failure::new(
+                            format!("c09/refused-patch-changed-server-log/{lk}"),
+                            format!("schedule {:?}: the patch request of device {d} was refused (conflict / error) but event {} is gone from the server's {name} log", out.granted, hex::encode(&missing[..4])),
+                        ));
+                    }
                     if req == "patch" && !t.has_compaction {
                         // known finding: the drop by a concurrent rewind-and-patch is transient on the
                         // unchanged tree (the overwritten device pushes again). Keep going and judge
